@@ -70,6 +70,9 @@ struct markerStruct
   MaybeConst tainted_volatile<fieldType, T_Sbx> fieldName;
 
 #define helper_convert_type(fieldType, fieldName, isFrozen)                    \
+  RLBOX_VERIF_POINT("struct field " #fieldName,                                \
+                    &rhs.fieldName,                                            \
+                    sizeof(rhs.fieldName));                                    \
   ::rlbox::detail::convert_type<T_Sbx, Direction, Context>(                    \
     lhs.fieldName, rhs.fieldName, example_unsandboxed_ptr, sandbox_ptr);
 
